@@ -1,0 +1,35 @@
+//go:build verif
+// +build verif
+
+package gocql
+
+import "net"
+
+// Add-only access for the C05 harness to the decoders of system.local / system.peers rows (host_source.go).
+
+// VerifC05HostFromIter is Session.hostInfoFromIter on a session that has only a configuration.
+func VerifC05HostFromIter(it *Iter) (string, error) {
+	s := &Session{cfg: ClusterConfig{Port: 9042}, logger: nopLogger{}}
+	h, err := s.hostInfoFromIter(it, net.IPv4(10, 0, 0, 1), 9042)
+	if err != nil {
+		return "", err
+	}
+	return h.String(), nil
+}
+
+// VerifC05HostFromMap is Session.hostInfoFromMap (what the ring refresh calls for every system.peers row).
+func VerifC05HostFromMap(row map[string]interface{}) (string, error) {
+	s := &Session{cfg: ClusterConfig{Port: 9042}, logger: nopLogger{}}
+	h, err := s.hostInfoFromMap(row, &HostInfo{port: 9042})
+	if err != nil {
+		return "", err
+	}
+	return h.String(), nil
+}
+
+// VerifC05ParseVersion is cassVersion.Set, the parser of the release_version column.
+func VerifC05ParseVersion(v string) (major, minor, patch int, err error) {
+	var c cassVersion
+	err = c.Set(v)
+	return c.Major, c.Minor, c.Patch, err
+}
